@@ -22,6 +22,11 @@ pub fn convert(
         }
     }
 
+    // a function call cannot be assigned to
+    if extra.element == ExprContext::Assignment {
+        return Err(LintError::ArrayNotDefined.at_pos(extra.pos));
+    }
+
     // now validate we have arguments
     functions_must_have_arguments(&args, extra.pos)?;
     // continue with built-in/user defined functions
